@@ -61,6 +61,7 @@ Cat ==
   ("section_named_as_form"   :> M(Begin, "survey", FALSE, "ident")) @@
   ("unknown_ref"             :> M(Q, "survey", FALSE, "ident")) @@
   ("ambiguous_ref"           :> M(Q, "survey", FALSE, "ident")) @@
+  ("ambiguous_ref_three"     :> M(Q, "survey", FALSE, "ident")) @@
   ("unknown_type"            :> M(Q, "survey", FALSE, "ident")) @@
   ("unknown_param"           :> M({"text"}, "survey", FALSE, "ident")) @@
   ("bad_max_pixels"          :> M({"photo"}, "survey", FALSE, "ident")) @@
